@@ -70,11 +70,12 @@ FoldFrom(mode, prefer, block, i, env, out) ==
               IN FoldFrom(mode, prefer, block, i + 1, env2, Append(out, P(nk, nv)))
 FoldBlock(mode, prefer, block, env) == FoldFrom(mode, prefer, block, 1, env, <<>>)
 
-\* expanded names pairwise distinct and distinct from the not-yet-processed original spellings
+\* the FINAL names are pairwise distinct (two entries ending under one name: which survives is not stated) and so are
+\* the written ones (a mapping).  An entry whose expanded name equals a LATER entry's written name is in scope: that
+\* later entry gets its own, different, final name ("$$X" then "$X") and must still be processed.
 NoCollision(mode, prefer, block, env) ==
     LET r == FoldBlock(mode, prefer, block, env) IN
     /\ ~r.err
     /\ \A i, j \in 1..Len(r.block) : i # j => r.block[i].k # r.block[j].k
-    /\ \A i, j \in 1..Len(block) : i < j => r.block[i].k # Spell(block[j].k)
     /\ \A i, j \in 1..Len(block) : i # j => Spell(block[i].k) # Spell(block[j].k)
 =============================================================================
